@@ -743,7 +743,8 @@ func ImportType(memoryGauge common.MemoryGauge, t cadence.Type) interpreter.Stat
 		*cadence.ResourceType,
 		*cadence.EventType,
 		*cadence.ContractType,
-		*cadence.EnumType:
+		*cadence.EnumType,
+		*cadence.AttachmentType:
 		return importCompositeType(
 			memoryGauge,
 			t.(cadence.CompositeType),
@@ -769,7 +770,7 @@ func ImportType(memoryGauge common.MemoryGauge, t cadence.Type) interpreter.Stat
 		for _, typ := range t.Types {
 			intf, ok := typ.(cadence.InterfaceType)
 			if !ok {
-				panic(fmt.Sprintf("cannot export type of type %T", t))
+				panic(errors.NewDefaultUserError("cannot import intersection type with non-interface type %T", typ))
 			}
 			types = append(types, importInterfaceType(memoryGauge, intf))
 		}
@@ -790,6 +791,7 @@ func ImportType(memoryGauge common.MemoryGauge, t cadence.Type) interpreter.Stat
 		)
 
 	default:
-		panic(fmt.Sprintf("cannot import type of type %T", t))
+		// The type comes from outside (an argument, a decoded value): not being able to import it is a user error.
+		panic(errors.NewDefaultUserError("cannot import type of type %T", t))
 	}
 }
